@@ -196,6 +196,14 @@ def _where(log, i):
 
 def check(sc, res):
     log, err = run_scenario(sc)
+    if log is None or any(e[0] == "EXIT" and e[1:3] == ["signaled", "14"] for e in log):
+        # the helper server died or the child's 20 s guard timer fired (seen once under a load of three concurrent campaigns):
+        # decided by a second execution with a fresh server - a real crash or hang shows again
+        res.label("re-executed after helper failure or guard expiry")
+        p = _proc.pop(os.getpid(), None)
+        if p is not None and p.poll() is None:
+            p.kill()
+        log, err = run_scenario(sc)
     window = any(s[0].startswith(("ctor", "sethandler", "dtor")) for s in sc["sigs"])
     nontrivial = window and any(s.startswith("reg") for s in sc["steps"])
     res.case(common.h(sc), nontrivial, sample=sc if nontrivial else None,
